@@ -175,9 +175,10 @@ theorem pow_iff (limit : Nat) (hl : limit < 2 ^ 256) (hash : Bytes) (hh : hash.l
     Model.checkPoW limit hash bits = .ok ↔ Spec.powValid limit hash bits := by
   have htake : hash.take 32 = hash := by rw [← hh]; exact List.take_length
   have he : (bits / 2 ^ 24) % 256 = bits / 2 ^ 24 := by omega
+  have hlen : ¬ (hash.length < 32) := by omega
   unfold Model.checkPoW Spec.powValid Spec.compactNeg Spec.compactOvf Spec.compactValue
     Model.uint256FromStr Model.fromCompact
-  simp only [htake, he]
+  simp only [htake, he, hlen, if_false]
   generalize leNat hash = L
   generalize hW : bits % 2 ^ 23 = w
   have hw : w < 2 ^ 23 := by omega
@@ -214,10 +215,64 @@ theorem pow_iff (limit : Nat) (hl : limit < 2 ^ 256) (hash : Bytes) (hh : hash.l
           · simp [h1, h2]; omega
         · simp [h1]; omega
 
-/-- rejection is a validation error: the model has no other outcome constructor -/
-theorem pow_reject_is_validation (limit : Nat) (hash : Bytes) (bits : Nat) :
+/-- rejection is a validation error: for a hash of at least 32 bytes (a digest) the only outcomes
+    are acceptance and `CheckProofOfWorkError`; the `struct.error` branch of `uint256_from_str` is dead -/
+theorem pow_reject_is_validation (limit : Nat) (hash : Bytes) (hh : 32 ≤ hash.length) (bits : Nat) :
     Model.checkPoW limit hash bits = .ok ∨ Model.checkPoW limit hash bits = .errPow := by
-  cases Model.checkPoW limit hash bits <;> simp
+  have hlen : ¬ (hash.length < 32) := by omega
+  unfold Model.checkPoW Model.uint256FromStr
+  simp only [hlen, if_false]
+  split
+  · right; rfl
+  · split
+    · right; rfl
+    · split
+      · right; rfl
+      · left; rfl
+
+/-- outside the property's domain, recorded so that the model is not totalised: a hash shorter than
+    32 bytes with an admissible target makes `struct.error` escape -/
+theorem pow_short_hash (limit : Nat) (hash : Bytes) (hh : hash.length < 32) (bits : Nat)
+    (hs : (bits / 2 ^ 23) % 2 = 0) (ht : 0 < Model.fromCompact bits ∧ Model.fromCompact bits ≤ limit) :
+    Model.checkPoW limit hash bits = .pyStructError := by
+  unfold Model.checkPoW Model.uint256FromStr
+  have h1 : ¬ ((bits / 2 ^ 23) % 2 = 1) := by omega
+  have h2 : ¬ ¬ (0 < Model.fromCompact bits ∧ Model.fromCompact bits ≤ limit) := fun h => h ht
+  simp only [h1, if_false, h2, hh, if_true]
+
+/-- the byte length used by `compact_from_uint256` is Python's `(v.bit_length() + 7) >> 3` -/
+theorem nbytes_is_python (v : Nat) : nbytes v = (bitLength v + 7) / 8 := nbytes_eq_bitlength v
+
+/-- the proof-of-work clause in the property's own words: accepted exactly when the compact value has
+    its sign bit clear and denotes (mantissa·256^(exponent−3), floor below 3) a positive target no
+    greater than the chain's limit that the little-endian hash does not exceed.  ("Non-overflowing" is
+    subsumed: a target ≤ limit < 2²⁵⁶ fits 256 bits.) -/
+theorem pow_iff_target (limit : Nat) (hash : Bytes) (hh : hash.length = 32) (bits : Nat) (hb : bits < 2 ^ 32) :
+    Model.checkPoW limit hash bits = .ok ↔
+      (bits / 2 ^ 23) % 2 = 0 ∧
+      0 < Spec.decodeMantExp (bits % 2 ^ 23) (bits / 2 ^ 24) ∧
+      Spec.decodeMantExp (bits % 2 ^ 23) (bits / 2 ^ 24) ≤ limit ∧
+      leNat hash ≤ Spec.decodeMantExp (bits % 2 ^ 23) (bits / 2 ^ 24) := by
+  have htake : hash.take 32 = hash := by rw [← hh]; exact List.take_length
+  have hlen : ¬ (hash.length < 32) := by omega
+  by_cases hs : (bits / 2 ^ 23) % 2 = 1
+  · have h0 : ¬ ((bits / 2 ^ 23) % 2 = 0) := by omega
+    unfold Model.checkPoW
+    simp only [hs, if_true]
+    constructor
+    · intro h; cases h
+    · intro h; exact absurd h.1 (by decide)
+  · have hs0 : (bits / 2 ^ 23) % 2 = 0 := by omega
+    rw [← decode_spec bits hb hs0]
+    unfold Model.checkPoW Model.uint256FromStr
+    simp only [hs, if_false, hlen, htake, hs0, true_and]
+    generalize Model.fromCompact bits = T
+    generalize leNat hash = L
+    by_cases h1 : 0 < T ∧ T ≤ limit
+    · by_cases h2 : L > T
+      · simp [h1, h2]
+      · simp [h1, h2]; omega
+    · simp [h1]; omega
 
 /-! ### non-vacuity: concrete values meeting the hypotheses -/
 
